@@ -267,6 +267,29 @@ CLAIMED["C07"] = dict(
         "an emptied range leaves behind). The kill model is validated by the witness only. Trusted: Coq kernel, harness, python oracle. No axioms.",
    technique="Rocq loop-invariant proof for every step of a pass (in-process safety) + refutation witness on an explicit kill model; crash-point enumeration inside GC on the real store",
    design="6/C06-C07")
+CLAIMED["C18"] = dict(
+   text="Theorems (coq/props/C18.v), for ALL ranges begin <= end below the head file and ALL bucket states satisfying the C01 refinement relation "
+        "and the GC precondition of C03 (met by every state reachable by client operations and clean restarts), for a pass without hint merge: "
+        "(1) C18_range_files_hold_only_current_records -- every record an independent scan finds afterwards in any file of the range is the record "
+        "the index points at for its key (by C03 the one every read returns: a live value or a retained tombstone), or a tombstone of a key the "
+        "index has forgotten kept because GC did not start at file 0; and it is the only record at its offset; (2) C18_each_indexed_key_once -- two "
+        "records of one indexed key cannot both survive; (3) C18_pass_layout -- there is a last destination D: files dst0..D hold only current "
+        "records above the old end W0 of dst0, files D+1..end are EMPTY (space returned), the records of the earlier file dst0 below W0 are exactly "
+        "those that were there before and none straddles W0 (GC only appended to it), the files between dst0 and begin were empty beforehand. "
+        "Proof: a region invariant (GC2) and a prefix invariant (GP) carried through every per-record step (drop / append / destination switch "
+        "with truncation) and every source file alongside C03's loop invariant (proofs/GcView.v, about 450 further lines). (4) The clause 'each "
+        "exactly once' is REFUTED for forgotten tombstones: C18_dup_tombstone_refuted (known finding F11) evaluates the layout [P Q][K1 Kdel]"
+        "[K2 Kdel][Y Z][W], restart with the tree rebuilt, gc(1,2) on the model: tombstones -2 and -4 of K both survive; (1) shows this is the only "
+        "way a superseded record survives. Correspondence: 120 GC-mode histories per quick run (half of them dense: destinations fill and switch), "
+        "every data file scanned by an independent record scanner before and after each pass, directory contents + GC counters compared with the "
+        "model; python oracle: every surviving record in the range is its key's current record (position from meta-get), no duplicate tombstones "
+        "(F11 class recorded), prefix of an earlier destination unchanged, the same pass run again releases nothing.",
+   note="PARTIAL: 'running the same pass again releases nothing', hint merge during GC and colliding keys are decided by correspondence + oracle, "
+        "not by a theorem; records are modelled as (offset, record) lists per file, so 'byte-for-byte unchanged' is 'the same records at the "
+        "same offsets' in the theorem and bytes only in the directory comparison of the correspondence. F11 is an open finding. Trusted: Coq "
+        "kernel, translator, harness incl. independent scanner, python oracle. No axioms.",
+   technique="Rocq loop-invariant proof over all states/ranges of what the written files contain after a pass + refutation witness; differential correspondence with independent file scanner and spec oracle",
+   design="6/C18")
 NOT_YET = {}
 props = [json.loads(l) for l in open(os.path.join(V, "properties.jsonl"))]
 checks = []
